@@ -122,7 +122,8 @@ func runC13(c *an.Ctx) {
 		v := an.Guarded(c.P, fn, []*an.Guard{g}, func(in ssa.Instruction) bool { return isCallTo(in, funcObj(intOp)) }, false)
 		okSubj := false
 		for _, k := range an.CallsTo(fn, isZero) {
-			if strings.HasPrefix(an.AccessPath(recvOf(k.Common())), "&other") || an.AccessPath(recvOf(k.Common())) == "other" {
+			// the divisor: the method's second operand (whatever it is called)
+			if on := fn.Params[1].Name(); strings.HasPrefix(an.AccessPath(recvOf(k.Common())), "&"+on) || an.AccessPath(recvOf(k.Common())) == on {
 				okSubj = true
 			}
 		}
